@@ -122,6 +122,21 @@ fn history_prelude(b: &[u8], hv: u64, skip: bool, hash: bool) {
 	}
 }
 
+/// read with the `debug` option set (every event's payload is dumped into a scratch directory, removed
+/// afterwards): the option must change nothing about the game returned
+pub fn read_slp_debug(b: &[u8], skip: bool, hash: bool) -> Result<Game, Fail> {
+	static N: std::sync::atomic::AtomicU64 = std::sync::atomic::AtomicU64::new(0);
+	let dir = std::env::temp_dir().join(format!("verif-debug-{}-{}", std::process::id(), N.fetch_add(1, std::sync::atomic::Ordering::Relaxed)));
+	let opts = slippi::de::Opts { skip_frames: skip, compute_hash: hash, debug: Some(slippi::de::Debug { dir: dir.clone() }) };
+	let r = catch(|| slippi::read(Cursor::new(b), Some(&opts)));
+	let _ = std::fs::remove_dir_all(&dir);
+	match r {
+		Ok(Ok(g)) => Ok(g),
+		Ok(Err(e)) => Err(Fail::Err(e.to_string())),
+		Err(p) => Err(Fail::Panic(p)),
+	}
+}
+
 /// read with `None` options (the default path)
 pub fn read_slp_default(b: &[u8]) -> Result<Game, Fail> {
 	match catch(|| slippi::read(Cursor::new(b), None)) {
